@@ -377,7 +377,32 @@ class Offsets(object):
         return flat[a:b].reshape(shape)
 
 
-def run_recorded(spec, fname, p=None, handles=None):
+class relaxed_sqlite(object):
+    """While active, connections opened through sqlite3.connect get PRAGMA synchronous=OFF and an in-memory rollback journal:
+    the recorder's per-case commits then cost no fsync / journal file (durability is C18's subject, not C17/C19's)."""
+
+    def __init__(self, active=True):
+        self.active = active
+
+    def __enter__(self):
+        import sqlite3
+        self._orig = sqlite3.connect
+        if self.active:
+            orig = self._orig
+
+            def connect(*a, **k):
+                con = orig(*a, **k)
+                con.execute('PRAGMA synchronous=OFF')
+                con.execute('PRAGMA journal_mode=MEMORY')
+                return con
+            sqlite3.connect = connect
+
+    def __exit__(self, *exc):
+        import sqlite3
+        sqlite3.connect = self._orig
+
+
+def run_recorded(spec, fname, p=None, handles=None, fast=True):
     """Execute spec['ops'] with the recorder writing to `fname`; returns (problem, log, info).
 
     log entries: {'key', 'source', 'name' (case name), 'stack', 'prefix', 'inputs', 'outputs', 'residuals' (flat copies of the
@@ -387,7 +412,8 @@ def run_recorded(spec, fname, p=None, handles=None):
         p, handles = build(spec, fname)
     model = p.model
     p.setup()
-    p.final_setup()
+    with relaxed_sqlite(fast):
+        p.final_setup()
     log = []
     riter = p._metadata['recording_iter']
 
@@ -732,6 +758,7 @@ def recording_strategy(spec, max_recorders=4, min_recorders=1, need=None):
         nrun = 0
         clean = True        # no counter reset since the first run and no prefix used so far
         nrec = 0
+        ndrv = 0
         dvs = desvar_names(spec)
         for i in range(nops):
             k = draw(st.integers(0, 9))
@@ -747,13 +774,17 @@ def recording_strategy(spec, max_recorders=4, min_recorders=1, need=None):
                         op['prefix'] = 'r0'
                         clean = False
                 else:
-                    if clean and draw(st.booleans()):
+                    # DOEDriver / ScipyOptimizeDriver restart their own iteration counter in every run(), whatever
+                    # reset_iter_counts says: a second run_driver needs a case_prefix to keep the case names unique
+                    again = op['op'] == 'run_driver' and spec['driver']['t'] != 'plain' and ndrv > 0
+                    if clean and not again and draw(st.booleans()):
                         op['reset'] = False
                     else:
                         op['prefix'] = f"r{nrun}"
                         op['reset'] = draw(st.booleans())
                         clean = False
                 nrun += 1
+                ndrv += op['op'] == 'run_driver'
                 ops.append(op)
         if nrun == 0:
             ops.append({'op': 'run_driver' if draw(st.booleans()) else 'run_model'})
